@@ -69,6 +69,10 @@ def subsequence(res, G, L, residue, live, prog, k, rate):
             res.count(f"rate{rate}:plain_must_calls")
             if g.get("_traced"):
                 res.count(f"rate{rate}:plain_must_traced")
+            if prog.get("per_function"):
+                res.count(f"perfn:{rate}:{g['qual']}:calls")
+                if g.get("_traced"):
+                    res.count(f"perfn:{rate}:{g['qual']}:traced")
         if c02.flavor(g["code"]) == "generator" and len(g["resumes"]) >= 2 and not g.get("_traced"):
             res.count("generators_resumed_twice_after_sampled_out_start")
     return bad
@@ -83,8 +87,10 @@ def work(p):
         if spec.get("literal"):
             prog = dict(spec["literal"], name=spec["name"])
         else:
-            prog = gp.build(rng, spec["name"], nfuncs=spec.get("nfuncs", 12), opts={"ensure": ["genfunc", "genmethod"]}, live=spec.get("live", 4),
-                            abandon=spec.get("abandon", False))
+            prog = gp.build(rng, spec["name"], nfuncs=spec.get("nfuncs", 12), opts={"ensure": ["genfunc", "genmethod"], "prestart": spec.get("prestart", False)},
+                            live=spec.get("live", 4), abandon=spec.get("abandon", False))
+            if spec.get("prestart"):
+                res.count("prestart_programs")
         k = spec["k"]
         try:
             mod, path = c02.load_program(d, prog)
@@ -123,11 +129,17 @@ def run(ck):
     for i in range(nprog):
         r = ck.rng("prog", i)
         sp.append({"name": f"vfprog18_{ck.seed}_{i}", "seed": f"C18:{ck.seed}:{i}", "k": r.choice([0, 3]), "nfuncs": r.choice([8, 12, 16]),
-                   "live": r.choice([2, 4, 6]), "abandon": r.random() < 0.05, "rates": RATES,
+                   "live": r.choice([2, 4, 6]), "abandon": r.random() < 0.05, "prestart": i % 6 == 2, "rates": RATES,
                    "rng_seeds": [r.randrange(10**6) for _ in range(nseeds)]})
     n = core.NPROC * (2 if quick else 16)
     pin = [dict(s, rates=s.get("rates", [2]), rng_seeds=s.get("rng_seeds", list(range(8)))) for s in c02.pinned("C18")]
-    payloads = [{"programs": pin}] + [{"programs": sp[i::n]} for i in range(n)]
+    loop_src = ("class Err(Exception):\n    pass\n\n\ndef parse(i):\n    return i\n\n\ndef store(v):\n    return None\n\n\ndef a1(v):\n    return v\n\n\n"
+                "def a2(v):\n    return v\n\n\ndef a3(v):\n    return v\n\n\ndef loop2(n):\n    for i in range(n):\n        store(parse(i))\n\n\n"
+                "def loop5(n):\n    for i in range(n):\n        a3(a2(a1(store(parse(i)))))\n")
+    loops = [{"name": f"vfloop18_{ck.seed}_{j}", "seed": f"C18:loop:{j}", "k": 0, "rates": [2, 10], "rng_seeds": [ck.rng("loop", j).randrange(10**6)],
+              "literal": {"source": loop_src, "labels": {q: "must" for q in ("parse", "store", "a1", "a2", "a3", "loop2", "loop5")}, "per_function": True,
+                          "entries": [["call", "loop2(1500)"], ["call", "loop5(1500)"]]}} for j in range(2)]
+    payloads = [{"programs": pin}] + [{"programs": [lp]} for lp in loops] + [{"programs": sp[i::n]} for i in range(n)]
     for r in core.pmap("vf.props.c18:work", payloads, timeout=3400):
         ck.merge(r)
     # traced fraction of plain calls against binomial bounds (6 sigma)
@@ -145,6 +157,21 @@ def run(ck):
         if nn >= 20000 and abs(tt - nn * pr) > 6 * sigma + 1:
             ck.violation(f"sampling-fraction-off:rate{rate}", f"rate {rate}: {tt} of {nn} plain calls traced, expected {nn * pr:.0f} +- {6 * sigma:.0f}",
                          {"rate": rate, "calls": nn, "traced": tt})
+    # the thinning must also be fair per function: a fixed call pattern in a loop must not lock onto the sampling
+    perfn = {}
+    for key, v in ck.counters.items():
+        if key.startswith("perfn:") and key.endswith(":calls"):
+            _, rate, qual, _ = key.split(":")
+            nn, tt = v, ck.counters.get(f"perfn:{rate}:{qual}:traced", 0)
+            pr = 1.0 / int(rate)
+            sigma = math.sqrt(nn * pr * (1 - pr))
+            perfn[f"{rate}:{qual}"] = {"calls": nn, "traced": tt}
+            if nn >= 1000 and abs(tt - nn * pr) > 6 * sigma + 1:
+                ck.violation(f"sampling-fraction-off-per-function:rate{rate}", f"rate {rate}: {qual} traced {tt} of {nn} calls, expected {nn * pr:.0f} +- {6 * sigma:.0f}",
+                             {"rate": rate, "function": qual, "calls": nn, "traced": tt})
+    ck.counters["per_function_fraction_judgements"] = len(perfn)
+    ck.need("per_function_fraction_judgements", 6)
+    ck.need("prestart_programs", 20)
     ck.need("sampled_runs", 500)
     ck.need("unsampled_runs", 200)
     ck.need("sampled_traces_matched", 5000)
